@@ -118,7 +118,7 @@ fn judge(
 }
 
 fn fault_case(rec: &mut Rec, ctx: &Ctx, idx: u64, rng: &mut ChaCha20Rng) {
-  let t = rng.gen_range(2..=6u32);
+  let t = if idx % 6 == 5 { 1 } else { rng.gen_range(2..=6u32) };
   let ml = *pick(rng, &[1usize, 4, 16, 32, 32, 33, 64]);
   let rl = *pick(rng, &[1usize, 8, 32, 32, 40]);
   let a = match make_sharing(rng, t, ml, rl) {
@@ -140,8 +140,40 @@ fn fault_case(rec: &mut Rec, ctx: &Ctx, idx: u64, rng: &mut ChaCha20Rng) {
   let n = a.enc.len();
   let star_level = idx % 4 == 3;
   // position classes of the faulted share: first / inside the first t / beyond
-  for (pname, pos) in [("first", 0usize), ("inside", rng.gen_range(1..t as usize)), ("beyond", rng.gen_range(t as usize..n))] {
+  let inside = if t >= 2 { rng.gen_range(1..t as usize) } else { 0 };
+  let mut classes = vec![("first", 0usize), ("beyond", rng.gen_range(t as usize..n))];
+  if t >= 2 {
+    classes.push(("inside", inside));
+  }
+  for (pname, pos) in classes {
     let (orig_parsed, _) = AdssShare::decode_with_fields(&a.enc[pos]).expect("layout");
+    // value-level faults of the 4-byte fields (threshold and the three length prefixes)
+    for (fname, range) in fields_list(&f) {
+      if range.len() != 4 || !(fname == "threshold" || fname.ends_with("_len")) {
+        continue;
+      }
+      let cur = u32::from_le_bytes(a.enc[pos][range.clone()].try_into().unwrap());
+      let mut vals: Vec<u32> = vec![0, 1, 2, 3, cur.wrapping_sub(1), cur + 1, cur + 2, 24, 48, 255, 256, 65536 + cur, 1 << 31, u32::MAX];
+      vals.sort();
+      vals.dedup();
+      for v in vals {
+        if v == cur {
+          continue;
+        }
+        let mut coll = a.enc.clone();
+        coll[pos][range.clone()].copy_from_slice(&v.to_le_bytes());
+        let value_changed = match AdssShare::decode(&coll[pos]) {
+          Some(p) => p != orig_parsed,
+          None => true,
+        };
+        let what = format!("{}:=value@{}", fname, pname);
+        rec.case(&(fname, pname, "value", v, t));
+        judge(rec, &coll, &a.m, pos == 0 && value_changed, &what, star_level, || {
+          json!({"kind":"field-value-fault","field":fname,"new_value":v,"old_value":cur,"share_position":pos,"t":t,
+                 "collection_hex": coll.iter().map(|b| hex(b)).collect::<Vec<_>>(), "expected_message": hex(&a.m)})
+        });
+      }
+    }
     for (fname, range) in fields_list(&f) {
       for off in range.clone() {
         for fault in faults {
@@ -157,7 +189,10 @@ fn fault_case(rec: &mut Rec, ctx: &Ctx, idx: u64, rng: &mut ChaCha20Rng) {
             Some(p) => p != orig_parsed,
             None => true,
           };
-          let must_fail = pos == 0 && value_changed;
+          // with threshold 1 the polynomial is constant: (x', y) is another
+          // valid share of the same sharing, not an alteration of it
+          let still_valid_share = t == 1 && fname == "x";
+          let must_fail = pos == 0 && value_changed && !still_valid_share;
           let what = format!("{}@{}", fname, pname);
           rec.case(&(fname, pname, *fault, off - range.start, t));
           judge(rec, &coll, &a.m, must_fail, &what, star_level, || {
